@@ -1,6 +1,58 @@
-/- Driver mode `parse` (stub; filled in with the grammar model). -/
-namespace Oq3.Driver
+/- Driver mode `parse`: one case line = space-separated SyntaxKind names, `+` suffix = joint bit.
+Prints the canonical form I3 of DESIGN.md §2.1 for the grammar model. -/
+import Std.Data.HashMap
+import Oq3.Model.Grammar
+import Oq3.Model.Process
 
-def parseLine (line : String) : String := "not-implemented"
+namespace Oq3.Driver
+open Oq3.Gen Oq3.Parser Oq3.Grammar
+
+def kindByName : Std.HashMap String SyntaxKind :=
+  SyntaxKind.all.foldl (fun m k => m.insert k.name k) {}
+
+/-- parse a case line into kinds and joint bits; `none` on an unknown kind name -/
+def parseCase (line : String) : Except String (Array SyntaxKind × Array Bool) := do
+  let mut kinds : Array SyntaxKind := #[]
+  let mut joint : Array Bool := #[]
+  for w in line.splitOn " " do
+    if w.isEmpty then continue
+    let (nm, j) := if w.endsWith "+" then ((w.dropEnd 1).toString, true) else (w, false)
+    match kindByName[nm]? with
+    | some k =>
+      kinds := kinds.push k
+      joint := joint.push j
+    | none => throw s!"unknown kind {nm}"
+  return (kinds, joint)
+
+def showStep : Step → String
+  | .enter k => "E:" ++ k.name
+  | .exit => "X"
+  | .token k n => "T:" ++ k.name ++ ":" ++ toString n
+  | .error msg => "R:" ++ msg.replace " " "_"
+
+def tokenSum (steps : List Step) : Nat :=
+  steps.foldl (fun acc s => match s with | .token _ n => acc + n | _ => acc) 0
+
+/-- the hook `VERIF_NO_PROGRESS_LIMIT` compiled into the real parser under `oq3_verif` -/
+def noProgressLimit : Nat := 2000
+
+def showResult (r : Except Outcome (Array Ev × Nat)) : String :=
+  match r with
+  | .ok (events, ipos) =>
+    match process events.toList with
+    | none => "PANIC process"
+    | some steps =>
+      let body := " ".intercalate (steps.map showStep)
+      let bal := if balanceCheck steps then "1" else "0"
+      s!"pos={tokenSum steps};steps={body};bal={bal};ipos={ipos}"
+  | .error (.panic site) => "PANIC " ++ site
+  | .error .fuel => "FUEL"
+  | .error (.modelError msg) => "MODEL-ERROR " ++ msg
+
+def parseLine (line : String) : String :=
+  match parseCase line with
+  | .error e => "MODEL-ERROR bad case line: " ++ e
+  | .ok (kinds, joint) =>
+    showResult (parseSourceFile (defaultFuel kinds.size) kinds joint noProgressLimit)
 
 end Oq3.Driver
